@@ -1,5 +1,6 @@
 """C03 -- impossible states are never produced; infeasible requests are refused.  Oracle: no negative amount/volume, volume <= capacity in every returned value; feasibility of container transfers and fill_to decided independently (requests >= 1e-6 away from the boundary), refusals must be ValueError; directed exact-boundary cases."""
 import random
+from fractions import Fraction as F
 import common, dsl, gen, histcheck, oracles
 from props import C01 as base
 
@@ -74,6 +75,23 @@ def non_numbers(chk):
     return fails
 
 
+def recipe_oracle(prog, rg, out, qres):
+    import recipes
+    fails = []
+    if rg.failed is not None and out[0] == 'ok':
+        fails.append(f"step {rg.failed[0]} is refused when performed directly ({rg.failed[1]}: {rg.failed[2]}) but bake performed it")
+    if out[0] == 'ok':
+        for name, d in out[1].items():
+            for j, c in enumerate(recipes.containers(d)):
+                if c.get('nonfinite'):
+                    fails.append(f"bake returned object {name} with a non-finite amount or volume: {c['nonfinite']}")
+                if any(a < 0 for a in c['cont'].values()) or c['vol'] < 0:
+                    fails.append(f"bake returned object {name} (well {j}) with a negative amount or volume")
+                if c['max'] is not None and c['vol'] > c['max'] * (1 + F(1, 10**9)):
+                    fails.append(f"bake returned object {name} (well {j}) holding {float(c['vol'])!r} uL in a capacity of {float(c['max'])!r} uL")
+    return fails, []
+
+
 def run(chk, gate, status):
     gens = make_cases(chk)
     chk.assumptions += ['requests within 1e-6 (relative) of a feasibility boundary are not judged by the oracle, except the directed exactly-on-boundary cases built from short decimals']
@@ -84,6 +102,17 @@ def run(chk, gate, status):
     gens = gens + C05.make_cases(sub)[:(20 if chk.tier == 'quick' else 60)]
     cov = histcheck.run(chk, gens, oracle, 'C03', RULE, nontrivial)
     cov['operations_under_configuration_variants'] = histcheck.variants(chk, gens[:40], oracles.c03, 'C03v', limit=8 if chk.tier == 'quick' else 60)
+    # the same through recipes: bake returns no impossible object and performs no step that is refused when performed directly
+    # (containers created by a step with a declared capacity, over-filled ones included)
+    import recipes
+    cases = []
+    for i in range(20 if chk.tier == 'quick' else 200):
+        rng = random.Random(chk.seed * 100003 + 33000 + i)
+        cases.append((recipes.RecipeGen(rng, rng.randint(3, 9), allow_d13=False), []))
+    rc = recipes.check(chk, 'C03r', cases, recipe_oracle, RULE, lambda prog, rg, out, qres: [])
+    cov['recipe_clause'] = {k: rc[k] for k in ('programs', 'disagreements_checked', 'oracle_failures')}
+    for k in ('evaluations', 'programs', 'disagreements_checked', 'oracle_failures'):
+        cov[k] += rc[k]
     nn = non_numbers(chk)
     for t in nn[:3]:
         chk.violation(t, {'kind': 'non-number request', 'what': t})
@@ -95,6 +124,9 @@ def run(chk, gate, status):
 def replay(path):
     import json
     r = json.load(open(path))
+    if 'recipe' in r:
+        import recipes
+        return recipes.replay(path, recipe_oracle)
     if r.get('kind') == 'non-number request':
         class C: pass
         nn = non_numbers(C)
